@@ -43,7 +43,7 @@ CHECKS = {
  "C12": ("fuzz",
   "proptest token-level mutation of valid programs + structure-aware mutation of PL/RQ JSON + nesting ladder, driven in isolated worker processes; oracle = no panic / deadly signal",
   "Mutated sources and mutated PL/RQ JSON documents are driven through every public stage in worker processes (a stack overflow kills the worker, not the check); a panic or abort is a violation unless it matches a recorded panic (file + message prefix).",
-  "Termination and polynomial time cannot be decided by testing: watchdog time-outs are inconclusive. Recorded panics are matched on file and message prefix.", "DESIGN.md §3 C12"),
+  "Polynomial time cannot be decided by testing: watchdog time-outs are inconclusive, except that a short, shallow source (<= 4 KiB, bracket depth <= 12) that gets no answer within 2 x 60 s in two fresh workers is reported as non-termination. Recorded panics are matched on file and message prefix.", "DESIGN.md §3 C12"),
  "C13": ("api",
   "proptest fault injection into valid programs with ASCII / multi-byte / CRLF padding; validity predicate over every ErrorMessage + metamorphic padding invariance",
   "Each returned error must have a reason, a span inside the source (character offsets), a location equal to the span's line/column and a rendered message quoting that line; replacing ASCII padding before the fault by multi-byte text of equal character length must not move span or location.",
